@@ -60,14 +60,12 @@ class HPath:
 
 
 def handler_paths(h: Handler) -> List[HPath]:
-    from .core import atoms
+    from .core import path_facts
 
     out = []
     for p in paths_of(h.fn):
         hp = HPath(h, p)
-        for c, t, _ in p.conds:
-            for a, pol in atoms(c, t):
-                hp.facts[a] = pol
+        hp.facts = path_facts(p)
         out.append(hp)
     return out
 
